@@ -1,13 +1,22 @@
-From Coq Require Import List Bool String.
+From Coq Require Import List Bool String Arith.
 From ND Require Import Base.Dtype Ndx.ElemSyntax Ndx.ElemLaws Ndx.Baseline.
 From G Require Import GenElem.
 Import ListNotations.
 Open Scope string_scope.
-Definition viol (ps : list pattern) (law : row -> bool) :=
-  indices_where (fun r => negb (law r) && is_none (known_class ps r)) GenElem.table 0.
-Definition seen (ps : list pattern) (law : row -> bool) :=
-  nodup string_dec (flat_map (fun r => if law r then [] else
-     match known_class ps r with Some c => [c] | None => [] end) GenElem.table).
-Eval vm_compute in ("VIOL", viol @PS@ @LAWFN@).
-Eval vm_compute in ("KNOWN", seen @PS@ @LAWFN@).
-Eval vm_compute in ("ROWS", List.length GenElem.table).
+Fixpoint find_idx (r : row) (ps : list pattern) (i : nat) : option nat :=
+  match ps with [] => None | p :: q => if pat_match r p then Some i else find_idx r q (S i) end.
+(* one pass: (indices of violating rows, pattern indices hit by failing rows) *)
+Fixpoint scan (ps : list pattern) (law : row -> bool) (l : list row) (i : nat) (v k : list nat) :=
+  match l with
+  | [] => (rev v, k)
+  | r :: q => if law r then scan ps law q (S i) v k
+              else match find_idx r ps 0 with
+                   | Some j => scan ps law q (S i) v (if existsb (Nat.eqb j) k then k else j :: k)
+                   | None => scan ps law q (S i) (i :: v) k
+                   end
+  end.
+Definition result := scan @PS@ @LAWFN@ GenElem.table 0 [] [].
+Definition cls_of (j : nat) := match nth_error @PS@ j with Some (_, _, _, _, c) => c | None => "?" end.
+Definition res := Eval vm_compute in result.
+Eval vm_compute in ("VIOL", fst res).
+Eval vm_compute in ("KNOWN", nodup string_dec (map cls_of (snd res))).
